@@ -170,7 +170,8 @@ theorem long_overflow_was_folded_before_repair :
       = 4000000000 ∧ foldInt .add .l 2000000000 2000000000 = .unfolded := by decide
 
 example : foldInt .add .i 32767 1 = .unfolded := by decide
-example : foldInt .idiv .l (-7) 2 = .lit .l (-4) := by decide
+example : foldInt .idiv .l (-7) 2 = .lit .l (-3) := by decide
+example : foldInt .mod .i (-7) 3 = .lit .i (-1) := by decide
 example : IntOp .idiv := by unfold IntOp; simp
 
 
